@@ -2,7 +2,5 @@ package main
 
 import "verifharness/vkit"
 
-func c34(r *vkit.Run) {}
-func c35(r *vkit.Run) {}
 func c37(r *vkit.Run) {}
 func c38(r *vkit.Run) {}
